@@ -46,7 +46,7 @@ func ingestAlphabet() []ingestArgs {
 	}{{"sha256", fixture.Mh("x", multihash.SHA2_256, -1)}, {"sha512", fixture.Mh("x", multihash.SHA2_512, -1)}, {"identity", fixture.Mh("x", multihash.IDENTITY, -1)}}
 	for _, m := range mhs {
 		for _, c := range []int{0, 64} {
-			for _, d := range []int{0, 40} {
+			for _, d := range []int{0, 40, 1000, 1024} { // up to the schema's metadata limit
 				for a := 1; a <= 2; a++ {
 					addrs := []string{"/ip4/1.2.3.4/tcp/7777", "/dns4/example.com/tcp/443/https"}[:a]
 					out = append(out, ingestArgs{fmt.Sprintf("%s,ctx%d,md%d,addrs%d", m.n, c, d, a), m.mh, fixture.Bytes(c, 1), fixture.Bytes(d, 2), addrs})
@@ -135,7 +135,7 @@ func (f *rawRecord) UnmarshalRecord([]byte) error   { return nil }
 
 func TestCheck(t *testing.T) {
 	r := vp.New("C18", "exploration",
-		"requests: 24 ingest argument combinations plus 10 with unusual address strings (non-canonical multiaddr spellings, non-multiaddr strings, repeats, none) and register requests with 1..3 addresses; every (signing key, named provider) pair over 4 key types with named = signer, another identity of the same type, and an identity of another type; for sealed envelopes of each key type: every single-bit flip, field-level replacement of key / payload type / payload / signature, envelopes sealed for another domain or replayed to the other reader. Non-trivial: every case except the unaltered own-key request. Distinct = distinct (reader, request, signer, named, alteration).",
+		"requests: 48 ingest argument combinations (metadata of 0, 40, 1000 and the maximal 1024 bytes; context ID empty and of the maximal 64 bytes) plus 10 with unusual address strings (non-canonical multiaddr spellings, non-multiaddr strings, repeats, none) and register requests with 1..3 addresses; every (signing key, named provider) pair over 4 key types with named = signer, another identity of the same type, and an identity of another type; for sealed envelopes of each key type: every single-bit flip, field-level replacement of key / payload type / payload / signature, envelopes sealed for another domain or replayed to the other reader. Non-trivial: every case except the unaltered own-key request. Distinct = distinct (reader, request, signer, named, alteration).",
 		"accept/reject is judged semantically: an altered byte string that decodes to the same (key, payload type, payload, signature) as the original is not counted as an alteration",
 		"keys: two identities per key type; RSA 2048",
 	)
